@@ -72,6 +72,30 @@ checks.update({
    note="Asymptotic claims are outside any bounded method: decided is the property's own operationalisation (growth between n and 4n) over the declared family space. No wall-clock oracle."),
 })
 pending={i:"check not built yet in this round (work in progress; see DESIGN.md §5 for the planned decision procedure)" for i in ALL if i not in checks}
+# additions made after the seed waves (DESIGN.md section 10): appended to the summaries above
+ADD={
+ "C01":" The sweep alphabet also holds non-ASCII code points that library predicates / mappings treat like ASCII; bases include empty opaque paths before '?'/'#', an empty path list behind an authority and hosts that make the host parser report something.",
+ "C02":" Option values include ones the options do not expect (invalid default schemes, an odd special-scheme table, a host hook returning delimiters); every case is named for the CPU-time watchdog.",
+ "C03":" Histories contain reads in the middle (observe), every setter with its own current getter value and tab/newline-only values; the state key is taken before the oracle reads; the kind of path (opaque vs list) is compared too.",
+ "C04":" Same history alphabet as C03 (observe, self-values, strip-only values, empty-path-list starts).",
+ "C05":" Same history alphabet as C03; host/hostname values also from a structured grammar (host part x bracket / port-separator arrangements x terminator); non-ASCII digits in ports.",
+ "C06":" Also: base strings padded with non-ASCII white space; the self-resolution law under a fail-on-validation-error parser and for the RESULTS of resolutions (excused only where the standard's own result does not round-trip); the opacity of a base is taken from its text.",
+ "C07":" Plus a code-point sweep (every code point of the sweep alphabet at every position of seven addresses).",
+ "C08":" Plus '::' before every piece and at the end for 0..9 pieces in every zero pattern (second '::', lone ':' at the ends, IPv4 tails) and a code-point sweep.",
+ "C09":" Escape spellings include %Xx / %xX.",
+ "C10":" Derivations include ONE variadic Set(a,b) / Clear(a,b) over all pairs of printable ASCII.",
+ "C11":" The query alphabet has escapes of never-valid bytes (%FF %80); histories contain reads in the middle.",
+ "C12":" Also: Iterate with modifying callbacks, SetSearch with the URL's own current Search(), reads in the middle, the URL a clone was taken from kept as a frozen witness, two starts parsed by a fail-on-validation-error parser.",
+ "C13":" Pairs are also built from values that have lived (seven pre-histories applied to the original before the pairing).",
+ "C14":" Also: a shared URL whose list was materialised before sharing, one with an empty query and fragment, calls that derive a private URL from a shared base and then write to it, long inputs (300 bytes; thorough 4200) at a coarser scheduling granularity.",
+ "C16":" Profiles are built twice from one caller-held option list (canonicalizer options first); the canonicalizer-option clause also runs on top of each listed parser option and is also computed on the reference model; setter values are inputs of the neutrality clause; derived accessors are checked against the configured scheme table.",
+ "C17":" The composed-profile space also has a product of escaped delimiters in every component with and without credentials and port; every unreserved character in every spelling.",
+ "C18":" Plus every unreserved character (not only the seven representatives) in every escaped spelling in every component that may carry escapes.",
+ "C19":" Same history alphabet as C03.",
+}
+for k,v in ADD.items():
+  checks[k]["text"]=checks[k]["text"]+v
+
 m={"version":1,
  "setup_cmd":"./run.sh setup",
  "hooks":{"guard":"verifoverlay","enable":"no source hooks: scheduling points / statement counters are generated at check time by /verif/instr (go/ast rewrite of /repo's working tree) and injected with `go build -overlay -tags verifoverlay`; /repo is never edited for instrumentation",
